@@ -143,6 +143,9 @@ pub fn gen_source_case(t: &mut Tape) -> Case {
                 let j = t.choose(pieces.len());
                 pieces.swap(i, j);
             }
+            // one very long token (70 000 characters; lengths whose low 16 bits exceed 48 997 hit a
+            // recorded formatter overflow and are not used)
+            3 if t.chance(1, 40) => pieces[i] = format!("\"{}\"", "a".repeat(70_000)),
             3 => pieces[i] = if t.chance(1, 8) { t.pick(VOCAB_WIDE) } else { t.pick(VOCAB) }.to_string(),
             4 => pieces.insert(i, if t.chance(1, 8) { t.pick(VOCAB_WIDE) } else { t.pick(VOCAB) }.to_string()),
             _ => {
